@@ -306,7 +306,9 @@ func runC04(c *Ctx) {
 		if len(waits) == 1 {
 			w := waits[0].(*ssa.Call)
 			waitOK := func(v ssa.Value) bool { return DerivesOnly(v, false, IsResultOf(w, -1)) }
-			dov := func(v ssa.Value) bool { return DerivesOnly(v, false, IsFieldLoadPred("instanceSharedDeps", "discardOverflow")) }
+			dov := func(v ssa.Value) bool {
+				return DerivesOnly(v, false, IsFieldLoadPred("instanceSharedDeps", "discardOverflow"))
+			}
 			isSlow := IsCallValue(-1, sIsSlowDown)
 			cnt := func(spec Spec, edges ...func(a, b *ssa.BasicBlock) bool) Interval {
 				return PathQuery{Fn: body, Start: w, Edge: AndEdges(append(edges, RestrictBool(waitOK, true))...), Exit: func(b *ssa.BasicBlock) bool { return ExitOf(b) == ExitReturn },
